@@ -380,12 +380,13 @@ def run(ctx: Ctx, repo: Repo, tier: str) -> None:
     except AnalysisError as e:
         concrete_err = e  # the abstract scenarios below still decide their clauses; re-raised at the end if they are silent
     ctx.trust("Python argument binding (positional then keyword) against the callee's signature as written in the source")
-    rule_default(ctx, repo)
-    rule_forwarding(ctx, repo)
-    rule_creation(ctx, repo)
-    rule_merge_gate(ctx, repo)
-    rule_no_growth(ctx, repo)
-    rule_class_stubs_kept_apart(ctx, repo)
-    rule_who_may_create(ctx, repo)
+    ctx.attempt(rule_default, ctx, repo)
+    ctx.attempt(rule_forwarding, ctx, repo)
+    ctx.attempt(rule_creation, ctx, repo)
+    ctx.attempt(rule_merge_gate, ctx, repo)
+    ctx.attempt(rule_no_growth, ctx, repo)
+    ctx.attempt(rule_class_stubs_kept_apart, ctx, repo)
+    ctx.attempt(rule_who_may_create, ctx, repo)
     if concrete_err is not None:
         raise concrete_err
+    ctx.settle()
